@@ -971,6 +971,10 @@ func (p *parser) parsePrimary() Expr {
 			return &ETypeArg{T: p.parseType()}
 		}
 	case tIdent:
+		if t.s == "map" && p.pos < len(p.toks) && p.toks[p.pos].k == tOp && p.toks[p.pos].s == "[" {
+			p.pos--
+			return &ETypeArg{T: p.parseType()}
+		}
 		switch t.s {
 		case "true":
 			return &EBool{true}
